@@ -180,6 +180,7 @@ type c11Obs struct {
 	PreStarts int64
 	Overlap   bool // at least two calls on the same name overlapped in time
 	Coalesced bool // more successful callers than PreStarts (the flight or the lookup was shared)
+	Aborted   bool // abort kinds: the winner ended with its own context error while its PreStart waited
 	KillRaced bool // a Kill of the name overlapped a spawn call of that name
 	Watchdog  string
 	HotSites  []string
